@@ -302,13 +302,13 @@ Proof.
     + (* EOI *) destruct (prule_err _ _ _ _ _ H W) as [->|(s2 & s3 & X & S2 & W2 & S3)]; [reflexivity|].
       rewrite S3, <- S2. f_equal. eapply (safe_prog_err (PPrim MEoi) _ s2 a s3 eq_refl W2); [rewrite S2; exact I|exact X].
     + (* a rule or a Unicode property *)
-      destruct (has_orule RG n0) eqn:HR.
+      case_eq (has_orule RG n0); intros HR; rewrite HR in H.
       * destruct (orule_id_nth _ HR) as (r & Nth & Nm). cbn [exec] in H. unfold vm_env in H. rewrite Nth in H. cbn [option_map] in H.
         assert (Hin : In r RG) by (eapply nth_error_In; eauto).
         assert (OB : okx D (oexpr_of r)) by (apply DC; auto; now rewrite Nm).
         apply (wraps_clean (vme (oexpr_of r)) n (fun f1 s1 a1 x1 L1 W1 I1 H1 => IH f1 L1 (oexpr_of r) s1 a1 x1 OB W1 I1 H1)
                            _ (vm_rule_body_wraps r) fuel s a x Hf W I H).
-      * destruct (uranges n0); [refine (safe_clean _ _ _ _ _ _ W I H); reflexivity|].
+      * case_eq (uranges n0); [intros rs Hu|intros Hu]; rewrite Hu in H; [refine (safe_clean _ _ _ _ _ _ W I H); reflexivity|].
         cbn [exec] in H. unfold vm_env in H. rewrite (proj2 (nth_error_None RG (S (List.length RG)))) in H by lia. discriminate.
   - (* OPosPred *) eapply lookahead_restores; eauto.
   - (* ONegPred *) eapply lookahead_restores; eauto.
